@@ -12,9 +12,10 @@ import (
 
 func init() {
 	sim.Register(&sim.Prop{
-		ID:    "C10",
-		Level: "exploration",
-		Tool:  "crop",
+		ID:           "C10",
+		Level:        "exploration",
+		Tool:         "crop",
+		FatalNoClaim: true,
 		Rule: "each run: a progressive input (corpus file, a byte-surgery layout variant of one, or a raw-muxer file with 1-3 tracks, seeded chunking/interleaving, stco/co64, ctts v0/v1/none, stss/sdtp/edts presence, mdat before/after moov, 32/64-bit mdat header) is put on a SimDisk, decoded lazily through a handle with a seeded delivery schedule and, in the fault configuration, EIO/seek error/truncated disk; " +
 			"cropMP4(file, durationMS, sink, handle) is called with a seeded duration (1 ms .. beyond the end, biased to sample boundaries +-1 ms) and a sink that may fail (write k, device full). Iff it returns nil the output is read by the independent demuxer: each track must be exactly the first k samples (bytes, durations, composition offsets, sync flags, order) with k computed from the statement by exact integer cross-multiplication, chunk offsets inside the new mdat, mdat payload = exactly those bytes, header durations <= originals, and the library must decode it. " +
 			"non-trivial = a delivery/storage/sink fault fired; distinct = hash of (input identity, layout, duration, delivered read sizes, outcome).",
@@ -26,5 +27,50 @@ func init() {
 		Runs:        map[string]int{"quick": 20000, "thorough": 1500000},
 		WantFaults:  []string{"read-short", "read-zero", "read-eio", "seek-eio", "disk-truncated", "write-eio", "write-full"},
 		WantProbes:  []string{"crop-succeeded", "crop-failed", "crop-beyond-end", "muxer-file", "corpus-file", "layout-variant"},
+	})
+	sim.Register(&sim.Prop{
+		ID:           "C11",
+		Level:        "exploration",
+		Tool:         "segmenter",
+		FatalNoClaim: true,
+		Rule: "each run: a progressive input with one video track (stss) and at most one audio track (corpus file or raw-muxer file with seeded chunking/interleaving/ctts/sdtp/co64/layout) is decoded eagerly or lazily through a SimDisk handle (seeded delivery; EIO/seek error/truncation in the lazy fault configuration) and pushed through the segmenter's own functions " +
+			"(NewSegmenter, getSegmentStartsFromVideo, SetTargetSegmentation, then makeSingleTrackSegments / makeMultiTrackSegments / makeSingleTrackSegmentsLazyWrite with the handle as lazy source) with a seeded segment duration (1 ms .. beyond the end); the files it writes to a real scratch directory are read back and, per track, the concatenated init+segments must hold exactly the input's sample sequence " +
+			"(count, bytes, duration, composition offset, decode time, sync flag, nothing missing at the end) according to the independent demuxer, and every media segment must start with a sync sample of the video track. non-trivial = a delivery/storage fault fired; distinct = hash of (input, segment duration, mode, decode mode, delivered read sizes, outcome).",
+		Assumptions: []string{"tool error or panic => no claim (nothing was produced to compare)", "one output name exists per media type in single-track mode, so inputs have one video and at most one audio track",
+			"output files go to a real scratch directory (no seam): un-faulted", "sample flags of a progressive file are compared as the sync flag only"},
+		Real:        []string{"examples/segmenter: NewSegmenter, getSegmentStartsFromVideo, SetTargetSegmentation, make*Segments, copyMediaData, GetFullSamplesForInterval; mp4ff packages"},
+		Stub:        []string{"input file (SimDisk handle: delivery, EIO, seek error, truncation)", "virtual device time"},
+		RealNoFault: append([]string{"output files (real scratch directory via mp4.WriteToFile / os.Create)", "run(): flag parsing, os.Open (one smoke run)"}, realNoFault...),
+		Runs:        map[string]int{"quick": 6000, "thorough": 400000},
+		WantFaults:  []string{"read-short", "read-zero", "read-eio", "seek-eio", "disk-truncated"},
+		WantProbes:  []string{"segmenter-succeeded", "muxer-file", "corpus-file"},
+	})
+	sim.Register(&sim.Prop{
+		ID:           "C11b",
+		Level:        "exploration",
+		Tool:         "resegmenter",
+		FatalNoClaim: true,
+		Rule: "sub-world of C11: a fragmented single-track stream (packager history with 1-4 segments x 1-3 fragments, foreign boxes; or corpus testV300.mp4 / bbb5s_aac_sidx.mp4) is decoded through a seeded delivery schedule and either passed to the resegmenter's Resegment() with a seeded chunk duration and re-encoded, or every MediaSegment is split with Fragmentify(seeded duration) and re-encoded; " +
+			"the independent demuxer must read back the identical sample sequence (count, bytes, duration, flags, composition offset, decode time) and resegmented segments after the first must start with a sync sample.",
+		Assumptions: []string{"Resegment error/panic => no claim"},
+		Real:        []string{"examples/resegmenter: Resegment, addSamplesToFrag, addNewSegment; mp4.MediaSegment.Fragmentify; mp4ff packages"},
+		Stub:        []string{"io.Reader delivery (SimDisk handle)", "virtual device time"},
+		RealNoFault: realNoFault,
+		Runs:        map[string]int{"quick": 15000, "thorough": 1000000},
+		WantProbes:  []string{"resegment-checked", "fragmentify-checked"},
+	})
+	sim.Register(&sim.Prop{
+		ID:           "C11c",
+		Level:        "exploration",
+		Tool:         "combine",
+		FatalNoClaim: true,
+		Rule: "sub-world of C11: 2-3 single-track productions (packager histories, one fragment per segment, explicit trun values so that nothing relies on trex defaults) are stored as init/segment files in a real scratch directory and combined with combine-segs' combineInitSegments / combineMediaSegments; " +
+			"the independent demuxer must find every track's samples of every segment unchanged (count, bytes, duration, flags, composition offset, decode time) under the new track ids.",
+		Assumptions: []string{"only inputs that do not rely on trex defaults (limitation documented in the tool's source)", "files are real (os.ReadFile has no seam): un-faulted", "combine error/panic => no claim"},
+		Real:        []string{"examples/combine-segs: combineInitSegments, combineMediaSegments; mp4ff packages"},
+		Stub:        []string{"producer histories (packager node)"},
+		RealNoFault: append([]string{"scratch files read with os.ReadFile"}, realNoFault...),
+		Runs:        map[string]int{"quick": 5000, "thorough": 300000},
+		WantProbes:  []string{"combine-checked"},
 	})
 }
